@@ -321,3 +321,199 @@ func conjunctsOf(e ast.Expr) []ast.Expr {
 	}
 	return []ast.Expr{e}
 }
+
+func init() {
+	register(&Rule{
+		Name: "frames-leave-with-a-body", Props: []string{"C05", "C18", "C10", "C02"}, Engine: "SSA", Floor: 18,
+		Doc: "a frame header taken from the pool to be sent is given its body before it leaves: between AcquireFrameHeader and every place the header goes out (WriteTo, a channel send, Conn.writeOut / writeFrame, serverConn.write / enqueue, the header-block writers) a SetBody on that header dominates. A header without a body is written under whatever type the zero header has, or dereferences nil in WriteTo on a goroutine nothing recovers",
+		Run: func(p *Prog, r *Out) {
+			sinks := map[string]bool{
+				"(*FrameHeader).WriteTo": true, "(*Conn).writeOut": true, "(*Conn).writeFrame": true,
+				"(*serverConn).write": true, "(*serverConn).enqueue": true,
+				"(*Conn).writeHeaderBlock": true, "(*serverConn).writeHeaderBlock": true,
+			}
+			n := 0
+			for _, f := range p.allFuncs() {
+				if f.Pkg != p.SPkg {
+					continue
+				}
+				k := 0
+				for _, b := range f.Blocks {
+					for _, in := range b.Instrs {
+						c, ok := in.(*ssa.Call)
+						if !ok || p.calleeName(c.Common()) != "AcquireFrameHeader" {
+							continue
+						}
+						var sets, outs []ssa.Instruction
+						handed := false
+						for _, u := range *c.Referrers() {
+							switch x := u.(type) {
+							case *ssa.Call:
+								name := p.calleeName(x.Common())
+								if name == "(*FrameHeader).SetBody" && len(x.Call.Args) > 0 && x.Call.Args[0] == ssa.Value(c) {
+									sets = append(sets, u)
+								} else if sinks[name] {
+									outs = append(outs, u)
+								}
+							case *ssa.Send:
+								outs = append(outs, u)
+							case *ssa.Return, *ssa.Store, *ssa.MakeClosure, *ssa.Phi:
+								handed = true
+							case *ssa.Defer, *ssa.Go:
+								if sinks[p.calleeName(x.(ssa.CallInstruction).Common())] {
+									outs = append(outs, u)
+								}
+							}
+						}
+						if len(outs) == 0 {
+							continue // a reader's header, or one handed to its caller
+						}
+						k++
+						n++
+						fn := p.closureLabel(f)
+						r.fn(p.fname(f))
+						key := fn + " frame " + strconv.Itoa(k) + " has its body when it leaves"
+						bad := ""
+						for _, o := range outs {
+							dom := false
+							for _, s := range sets {
+								if instrDominates(s, o) {
+									dom = true
+								}
+							}
+							if !dom {
+								bad = p.ipos(o)
+							}
+						}
+						if bad != "" && handed {
+							r.undecided(key, p.ipos(in), "the header also flows through memory or a phi; its body cannot be followed")
+							continue
+						}
+						r.check(bad == "", key, p.ipos(in), "SetBody dominates every place the header goes out", fn+" lets a frame header out (at "+bad+") that no SetBody on every path has given a body")
+					}
+				}
+			}
+			if n == 0 {
+				r.undecided("frames sent", "?", "no AcquireFrameHeader followed by a write found")
+			}
+		},
+	})
+}
+
+func init() {
+	register(&Rule{
+		Name: "nil-error-not-reported", Props: []string{"C12", "C17", "C16", "C02"}, Engine: "SSA", Floor: 60,
+		Doc: "a contradiction rule: nowhere in the package is an error value returned, wrapped, stored or passed on in a place where that same value has just been found nil. The library writes `return nil` when it means success, so `if err == nil { return err }`, `if err == nil { resolve(err) }` and the like are an error test with its sense inverted: the failure path then runs on success (a request resolved with nil that was never answered, a loop that stops on a good write) and the success path on failure",
+		Run: func(p *Prog, r *Out) {
+			n := 0
+			for _, f := range p.allFuncs() {
+				if f.Pkg != p.SPkg && f.Pkg != p.SUPkg {
+					continue
+				}
+				k := 0
+				for _, b := range f.Blocks {
+					if len(b.Instrs) == 0 {
+						continue
+					}
+					iff, ok := b.Instrs[len(b.Instrs)-1].(*ssa.If)
+					if !ok {
+						continue
+					}
+					bo, ok := iff.Cond.(*ssa.BinOp)
+					if !ok || (bo.Op != token.EQL && bo.Op != token.NEQ) {
+						continue
+					}
+					v, other := bo.X, bo.Y
+					if kc, isK := v.(*ssa.Const); isK && kc.IsNil() {
+						v, other = bo.Y, bo.X
+					}
+					if kc, isK := other.(*ssa.Const); !isK || !kc.IsNil() || v.Type().String() != "error" {
+						continue
+					}
+					nilSucc := b.Succs[1]
+					if bo.Op == token.EQL {
+						nilSucc = b.Succs[0]
+					}
+					if len(nilSucc.Preds) != 1 || b.Succs[0] == b.Succs[1] {
+						continue
+					}
+					k++
+					n++
+					fn := p.closureLabel(f)
+					key := fn + " error test " + strconv.Itoa(k) + ": the value found nil is not then used as an error"
+					bad := ""
+					// the value, and what is reloaded from the local it lives in while nothing writes that local
+					vals := []ssa.Value{v}
+					if ld, isLd := v.(*ssa.UnOp); isLd && ld.Op == token.MUL {
+						if addr, isAl := ld.X.(*ssa.Alloc); isAl {
+							written := false
+							var loads []ssa.Value
+							for _, u := range *addr.Referrers() {
+								if !nilSucc.Dominates(u.Block()) {
+									continue
+								}
+								switch x := u.(type) {
+								case *ssa.Store:
+									if x.Addr == ssa.Value(addr) {
+										written = true
+									}
+								case *ssa.UnOp:
+									loads = append(loads, x)
+								default:
+									written = true // address taken: give up on the reloads
+								}
+							}
+							if !written {
+								vals = append(vals, loads...)
+							} else {
+								// at least the reloads at the head of the nil branch, before anything is stored
+								for _, y := range nilSucc.Instrs {
+									if st, isSt := y.(*ssa.Store); isSt && st.Addr == ssa.Value(addr) {
+										break
+									}
+									if _, isCall := y.(*ssa.Call); isCall {
+										// a call cannot write a local whose address does not escape (it is an Alloc that is not Heap)
+										if addr.Heap {
+											break
+										}
+									}
+									if l2, isLd2 := y.(*ssa.UnOp); isLd2 && l2.Op == token.MUL && l2.X == ssa.Value(addr) {
+										vals = append(vals, l2)
+									}
+								}
+							}
+						}
+					}
+					for _, vv := range vals {
+						refs := vv.Referrers()
+						if refs == nil {
+							continue
+						}
+						for _, u := range *refs {
+							if !nilSucc.Dominates(u.Block()) {
+								continue
+							}
+							switch x := u.(type) {
+							case *ssa.Return, *ssa.MakeInterface, *ssa.Store, *ssa.Send:
+								bad = p.ipos(u)
+							case *ssa.Call:
+								bad = p.ipos(x)
+							case *ssa.Go, *ssa.Defer:
+								bad = p.ipos(u)
+							}
+						}
+					}
+					if bad == "" {
+						r.ok(key, p.ipos(iff), "no use of the nil value as an error")
+					} else {
+						r.fn(p.fname(f))
+						r.bad(key, bad, fn+" returns, stores or passes on an error value at a place where it has just been found nil ("+bad+"): an error test with its sense inverted")
+					}
+				}
+			}
+			if n == 0 {
+				r.undecided("error tests", "?", "none found")
+			}
+		},
+	})
+}
